@@ -130,7 +130,11 @@ class Module:
         self.layouts = d.get("layouts", {})
         self.layout_by_name = {}
         for k, v in self.layouts.items():
-            self.layout_by_name[v["name"]] = v
+            nm = v["name"]
+            if nm.startswith("typeinfo name for "):
+                nm = nm[len("typeinfo name for "):]
+            v["name"] = nm
+            self.layout_by_name[nm] = v
 
     def gd(self, name):
         g = self.globals.get(name)
